@@ -254,6 +254,16 @@ func VerifHarness_C08_BatchStraddlesTruncation() {
 		Shards: []meta.ShardInfo{{ID: 1, Owners: []meta.ShardOwner{{NodeID: 1}}}, {ID: 2, Owners: []meta.ShardOwner{{NodeID: 2}}}}}
 	rp.ShardGroups = []meta.ShardGroupInfo{sg}
 	d.MaxShardGroupID, d.MaxShardID = 1, 2
+	// optionally an earlier, untouched group directly before it, with a third point of the batch
+	withEarlier := vBool("pointInEarlierGroup")
+	var t0 int64
+	if withEarlier {
+		sg0 := meta.ShardGroupInfo{ID: 2, StartTime: time.Unix(0, start-h), EndTime: time.Unix(0, start),
+			Shards: []meta.ShardInfo{{ID: 3, Owners: []meta.ShardOwner{{NodeID: 1}}}, {ID: 4, Owners: []meta.ShardOwner{{NodeID: 2}}}}}
+		rp.ShardGroups = []meta.ShardGroupInfo{sg0, sg}
+		d.MaxShardGroupID, d.MaxShardID = 2, 4
+		t0 = start - 1 // the last nanosecond of the earlier group
+	}
 	d.Databases = []meta.DatabaseInfo{{Name: "db", DefaultRetentionPolicy: "rp", RetentionPolicies: []meta.RetentionPolicyInfo{rp}}}
 	mc := &vC08Meta{data: d}
 	w := vC08Writer(mc)
@@ -265,6 +275,17 @@ func VerifHarness_C08_BatchStraddlesTruncation() {
 	pts := []models.Point{p1, p2}
 	if order {
 		pts = []models.Point{p2, p1}
+	}
+	if withEarlier {
+		p0 := vC08Point(t0)
+		switch vChoice("earlierPointPosition", 3) {
+		case 0:
+			pts = append([]models.Point{p0}, pts...)
+		case 1:
+			pts = []models.Point{pts[0], p0, pts[1]}
+		default:
+			pts = append(pts, p0)
+		}
 	}
 	m, err := w.MapShards(&WritePointsRequest{Database: "db", RetentionPolicy: "rp", Points: pts})
 	vAssert(err == nil, "C08.mapshards-ok")
